@@ -13,9 +13,9 @@ import yv
 
 def pool():
     P = []
-    def add(name, body, imports=(), deps=(), glob=False, priv=False):
+    def add(name, body, imports=(), deps=(), glob=False, priv=False, wild=None):
         for d in deps: body = body.replace(d, "r_" + d)
-        P.append(dict(name="r_" + name, body=body, imports=imports, deps=tuple("r_" + d for d in deps), glob=glob, priv=priv))
+        P.append(dict(name="r_" + name, body=body, imports=imports, deps=tuple("r_" + d for d in deps), glob=glob, priv=priv, wild=wild))
     add("abcd", 'strings: $a = "abcd" condition: $a')
     add("abcde", 'strings: $a = "abcde" condition: $a')
     add("bcde", 'strings: $a = "bcde" condition: $a')
@@ -46,6 +46,11 @@ def pool():
     add("ref_abcd", 'condition: abcd and filesize > 4', deps=("abcd",))
     add("ref_priv", 'condition: priv or fsize', deps=("priv", "fsize"))
     add("ofset", 'strings: $a1 = "abcd" $a2 = "qq" $b = "yz" condition: 2 of ($a*, $b)')
+    # wildcard rule sets: only rules of ITS namespace defined before it count (prefix used by no other pool rule, so the set of referenced rules is the declared deps)
+    add("pk_a", 'strings: $a = "abcde" condition: $a')
+    add("pk_b", 'strings: $a = "bcqq" condition: $a')
+    add("ruleset_any", 'condition: any of (r_pk_*)', deps=("pk_a",), wild="r_pk_")
+    add("ruleset_none", 'condition: none of (r_pk_*) and filesize > 0', deps=("pk_b",), wild="r_pk_")
     add("loop", 'strings: $a = "bc" condition: for any i in (1..#a) : (@a[i] > 3)')
     add("anon", 'strings: $ = "abcd" $ = "cdxy" condition: any of them')
     return P
@@ -116,6 +121,8 @@ def run_chunk(arg):
         err, tr, rcs = compile_and_trace(w, adds, bufs)
         label = "+".join("%s@%s" % (P[i]["name"], n) for i, n in zip(idxs, nss))
         if err is not None:
+            if "wildcard rule set" in json.dumps(err):          # a rule matching an earlier wildcard rule set in its namespace is a documented compile error
+                out.append((label, None, None)); continue
             out.append((label, "C05:set-does-not-compile", dict(errors=err, label=label))); continue
         globs_in_ns = {}
         for j, i in enumerate(idxs):
@@ -126,6 +133,8 @@ def run_chunk(arg):
             if r["priv"]: continue
             if any(g != j for g in globs_in_ns.get(nss[j], [])): continue          # a global rule was added to its namespace: excluded by the statement
             if names[j] != r["name"]: continue
+            if r["wild"] and any(names[q].startswith(r["wild"]) and nss[q] == nss[j] and P[idxs[q]]["name"] not in r["deps"] for q in range(j)):
+                continue                                                       # the wildcard references that rule: excluded by the statement
             exp, erc = alone_trace(w, P, i, nss[j], bufs)
             got = tr.get("%s:%s" % ("default" if nss[j] == "-" else nss[j], names[j]))
             if got != exp:
